@@ -288,6 +288,20 @@ Fixpoint spec_view (s : key_spec) (f : string) : option view :=
   | (g, w) :: s' => if String.eqb g f then Some w else spec_view s' f
   end.
 
+(* two values of a field that the view cannot tell apart *)
+Definition fequiv (w : view) (a b : pyval) : Prop :=
+  py_eqb (apply_view w a) (apply_view w b) = true.
+(* two calls agree (up to the views of spec s) on every field of fs *)
+Definition agree_on (s : key_spec) (fs : list string) (c1 c2 : fields) : Prop :=
+  forall f, In f fs -> exists w, In (f, w) s /\ fequiv w (getf c1 f) (getf c2 f).
+(* k with every hash(.) removed: the tuple that is hashed, itself *)
+Fixpoint strip_hash (k : kexpr) : kexpr :=
+  match k with
+  | KHash k' => strip_hash k'
+  | KTuple l => KTuple (map strip_hash l)
+  | _ => k
+  end.
+
 (* ------------------------------------------------------------------ *)
 (* the memo pattern
        try: r = CACHE[key]
@@ -340,6 +354,47 @@ Arguments Ok {R}.
 Arguments RaisedTypeError {R}.
 
 (* ------------------------------------------------------------------ *)
+(* cached expressions are shared OBJECTS: `array_contract` / `einsum` look the expression up
+   (or build it) and then call it on the arrays.  An object is modelled by its state S
+   (for cotengra.contract.Contractor: the `contractions` tuple and the option slots) and
+   one `call` function that may, in general, update the state; the dict holds the object by
+   reference, so an update made by one call is seen by the next call that hits the cache.
+   The cache-free machine builds a fresh object for every call. *)
+Section ExprObj.
+  Context {C S A V : Type}.
+  Variable dkey : C -> pyval.
+  Variable usecache : C -> bool.
+  Variable init : C -> S.               (* _build_expression(...) *)
+  Variable call : S -> A -> S * V.      (* calling the expression on arrays *)
+
+  Fixpoint dupdate (k : pyval) (s : S) (d : list (pyval * S)) : list (pyval * S) :=
+    match d with
+    | [] => []
+    | (k', s') :: d' => if py_eqb k' k then (k', s) :: d' else (k', s') :: dupdate k s d'
+    end.
+
+  Definition obj_step (d : list (pyval * S)) (ca : C * A) : list (pyval * S) * V :=
+    let c := fst ca in
+    let a := snd ca in
+    if usecache c then
+      match dlookup (dkey c) d with
+      | Some s => let sv := call s a in (dupdate (dkey c) (fst sv) d, snd sv)
+      | None => let sv := call (init c) a in (d ++ [(dkey c, fst sv)], snd sv)
+      end
+    else (d, snd (call (init c) a)).
+
+  Fixpoint obj_run (d : list (pyval * S)) (cas : list (C * A)) : list V :=
+    match cas with
+    | [] => []
+    | ca :: cas' => let dv := obj_step d ca in snd dv :: obj_run (fst dv) cas'
+    end.
+
+  Definition obj_cached_outputs (cas : list (C * A)) : list V := obj_run [] cas.
+  Definition obj_plain_outputs (cas : list (C * A)) : list V :=
+    map (fun ca => snd (call (init (fst ca)) (snd ca))) cas.
+End ExprObj.
+
+(* ------------------------------------------------------------------ *)
 (* a call of array_contract_expression / array_contract_path after normalisation *)
 Record ncall := mkCall {
   nc_cache : bool;          (* the `cache` argument *)
@@ -349,6 +404,13 @@ Record ncall := mkCall {
 Definition nc_dkey (e : henv) (k : kexpr) (c : ncall) : pyval := eval_kexpr e (nc_fields c) k.
 Definition nc_use (c : ncall) : bool := nc_cache c && nc_opt_hashable_cls c.
 Definition nc_keyok (k : kexpr) (c : ncall) : bool := key_ok (nc_fields c) k.
+
+(* "the hash separates the keys that occur": whenever the dict cannot tell the keys of two
+   calls of the sequence apart, the tuples that were hashed are equal (Python ==) *)
+Definition hash_inj (e : henv) (k : kexpr) (cs : list ncall) : Prop :=
+  forall c1 c2, In c1 cs -> In c2 cs ->
+    py_eqb (nc_dkey e k c1) (nc_dkey e k c2) = true ->
+    py_eqb (nc_dkey e (strip_hash k) c1) (nc_dkey e (strip_hash k) c2) = true.
 
 (* the observation compared with the real code: per call hit / miss / raised, and the
    list of dict keys at the end *)
@@ -495,7 +557,7 @@ Definition normalize (r : rawcall) : option ncall :=
   let mk inputs output sd opt :=
     mkCall (r_cache r) (r_hcls r)
       [("inputs", inputs); ("output", output); ("size_dict", PDict (pd_items sd));
-       ("optimize", opt); ("kwargs", PDict (r_kwargs r))]%string in
+       ("optimize", opt); ("kwargs", PDict (r_kwargs r)); ("%empty", PDict [])]%string in
   if r_canon r then
     let '(m1, ins) := im_map2 [] (r_inputs r) in
     let '(m2, out) := match r_output r with
